@@ -8,5 +8,6 @@ let handle = function
   | ["diffrange"; a; b] -> string_of_bool (c17_diffrange (n_of_int (int_of_string a)) (n_of_int (int_of_string b)))
   | ["date"; y; mo; d; h; mi; se] -> string_of_int (int_of_n (c17_date (n_of_int (int_of_string y)) (n_of_int (int_of_string mo)) (n_of_int (int_of_string d)) (n_of_int (int_of_string h)) (n_of_int (int_of_string mi)) (n_of_int (int_of_string se))))
   | ["fromtime"; sg; m] -> string_of_int (int_of_n (c17_fromtime (sg = "-") (n_of_int (int_of_string m))))
+  | ["commit"; o; w; z] -> show_outcome (fun x -> string_of_int (int_of_n x)) (c17_commit (n_of_int (int_of_string o)) (w = "1") (n_of_int (int_of_string z)))
   | _ -> failwith "bad case line"
 let () = main handle
